@@ -109,9 +109,10 @@ def c20_tls(R):
             R.bad(m, st, f"class-level Z3 object `{norm(st)}` is shared by all threads")
     # worker threads get their own context
     ctx = util.methods_of(cls)["_context"]
-    t = ast.unparse(ctx)
+    Fx = util.Frags(ctx)
     R.check(
-        "z3.Context() if not main_thread else z3.main_ctx()" in t,
+        Fx.has("main_thread = threading.current_thread() == threading.main_thread()")
+        and Fx.has("self._tls.context = z3.Context() if not main_thread else z3.main_ctx()"),
         m,
         ctx,
         "every non-main thread gets a fresh z3.Context",
@@ -133,7 +134,12 @@ def c20_ctx(R):
     tree = R.tree
     m = tree.mod(Z3)
     n = 0
-    for q, fn in m.functions.items():
+    for q, fn0 in m.functions.items():
+        # locals are resolved to what they stand for (`ctx = args[0].ctx`); a *parameter* called ctx is the caller's
+        if not any(isinstance(x, ast.Call) and ((dotted(x.func) or "") in NEEDS_CTX_KW or (dotted(x.func) or "") in WRAPPERS or dotted(x.func) == "z3.to_symbol") for x in walk_no_nested(fn0)):
+            continue
+        # only a local literally called `ctx` needs resolving (everything else is judged by its text)
+        fn = util.inline_aliases(fn0, lambda v: True) if any(isinstance(x, ast.Name) and x.id in util.local_names(fn0) for c_ in walk_no_nested(fn0) if isinstance(c_, ast.Call) for a_ in list(c_.args) + [k.value for k in c_.keywords] for x in [a_] if isinstance(a_, ast.Name)) else fn0
         for c in (x for x in walk_no_nested(fn) if isinstance(x, ast.Call)):
             d = dotted(c.func) or ""
             if d in NEEDS_CTX_KW:
@@ -298,8 +304,8 @@ def c20_solver(R):
     # the reuse-mode solver of the backend is per thread as well
     mz = tree.mod(Z3)
     sv = tree.func(Z3, "BackendZ3.solver")
-    t = ast.unparse(sv)
-    R.check("self._tls.solver = s" in t and "s = self._tls.solver" in t and "z3.Solver(ctx=self._context)" in t, mz, sv,
+    Fv = util.Frags(sv)
+    R.check(Fv.has("s = z3.Solver(ctx=self._context)") and Fv.has("self._tls.solver = s") and Fv.has("s = self._tls.solver"), mz, sv,
             "BackendZ3.solver: created in this thread's context, cached per thread", "BackendZ3.solver changed how it caches / contextualises solvers",
             construct="BackendZ3.solver per-thread")
     cl = tree.func(Z3, "BackendZ3.clone_solver")
